@@ -68,13 +68,16 @@ terms and record term types, and the `Record` arm of `Term::from_value` for a fl
     `UnsupportedFeature`, element types must agree, an erroring element makes the whole set `none`), the `isEmpty` arm of
     `compile_app1`, the `contains / containsAll / containsAny` arms of `compile_app2` (`a.containsAll(b)` =
     `set_subset(b, a)`), `compile` on `.set` (first error wins).  PROVED: `set_canonical_members` (the canonical form has
-    exactly the members of the element list and the declared type), `set_member_folds`, `set_is_empty_folds` (the literal
-    folding of `set_member` / `set_is_empty` on a canonical set is membership in / emptiness of the ORIGINAL list —
-    duplicates and order are irrelevant); the closed examples (`[1,2,2,1].contains(2)`, `[3,1,2] == [2,3,1,1]`,
+    exactly the members of the element list and the declared type), `set_member_folds`, `set_subset_folds`,
+    `set_intersects_folds`, `set_is_empty_folds` (the literal folding of `set_member` / `set_subset` / `set_intersects` /
+    `set_is_empty` on canonical sets is membership in / inclusion / overlap / emptiness of the ORIGINAL element lists —
+    duplicates and order are irrelevant; these are the evaluator's `Value.elem / subset / any-elem / isEmpty` shapes); the closed examples (`[1,2,2,1].contains(2)`, `[3,1,2] == [2,3,1,1]`,
     `[1, MAX+1].contains(1)` ↦ `none`, containsAll/containsAny both ways, the rejections).  NOT PROVED:
     `CompileCorrectFragment3` (a `def … : Prop`, the full statement in the shape of `compile_correct_fragment2`), in
-    particular nothing general about `set_subset`, `set_intersects`, set `==` (needs extensionality of the canonical form:
-    `termLt` is a strict total order on literals of one kind) or `if_all_some`.  `ctype`, `compile_rejects_iff`,
+    particular nothing general about set `==` (`factory::eq` compares the canonical forms structurally; needs extensionality
+    of the canonical form, i.e. that `termLt` is a strict total order on literals of one kind), about `if_all_some` /
+    `compile_set` (error propagation is shown on examples only), and the factory lemmas are not yet connected to
+    `evaluate` through `compile`.  `ctype`, `compile_rejects_iff`,
     `compile_typeOf_ctype`, `compilePolicy_discharged`, `vc_skeleton_correct_fragment` REMAIN ON `SFrag2` (they still hold
     for the extended `compile`, which is the same function).
 
@@ -559,8 +562,9 @@ theorem compile_correct_fragment (req : Request) (es : Entities) (senv : SlotEnv
 
 /-! ### THIRD fragment (`SFrag3`): set literals, `contains containsAll containsAny isEmpty`, set `==` — MODELLED and checked
     against Rust by stream c18symc; the general correctness statement is STATED (`CompileCorrectFragment3`), NOT proved;
-    proved: the canonical form keeps exactly the members, and `set_member` / `set_is_empty` fold to list membership /
-    emptiness on it (`set_canonical_members`, `set_member_folds`, `set_is_empty_folds`). -/
+    proved: the canonical form keeps exactly the members, and `set_member` / `set_subset` / `set_intersects` /
+    `set_is_empty` fold on it to list membership / inclusion / overlap / emptiness of the ORIGINAL element lists
+    (`set_canonical_members`, `set_member_folds`, `set_subset_folds`, `set_intersects_folds`, `set_is_empty_folds`). -/
 
 /-- the FULL statement for the third fragment (same shape as `compile_correct_fragment2`, plus the set case: the folded
     term is `some` of a canonical literal set term `setOf ts ty` whose members are, when the value is a set of primitives,
@@ -585,6 +589,20 @@ theorem set_member_folds (x : Term) (ts : List Term) (ty : TermType) (hx : x.isL
     (hts : ∀ y, y ∈ ts → y.isLiteral = true) :
     setMember x (setOf ts ty) = .prim (.bool (ts.contains x)) :=
   setMember_setOf x ts ty hx hts
+
+/-- `factory::set_subset` on two canonical literal sets (what `b.containsAll(a)` compiles to) folds to "every element of the
+    first list occurs in the second" — the evaluator's `Value.subset` on the element lists -/
+theorem set_subset_folds (as bs : List Term) (ty : TermType)
+    (has : ∀ y, y ∈ as → y.isLiteral = true) (hbs : ∀ y, y ∈ bs → y.isLiteral = true) :
+    setSubset (setOf as ty) (setOf bs ty) = .prim (.bool (as.all (fun x => bs.contains x))) :=
+  setSubset_setOf as bs ty has hbs
+
+/-- `factory::set_intersects` (= `not(set_is_empty(set_inter …))`, what `a.containsAny(b)` compiles to) on two canonical
+    literal sets folds to "some element of the first list occurs in the second" -/
+theorem set_intersects_folds (as bs : List Term) (ty : TermType)
+    (has : ∀ y, y ∈ as → y.isLiteral = true) (hbs : ∀ y, y ∈ bs → y.isLiteral = true) :
+    setIntersects (setOf as ty) (setOf bs ty) = .prim (.bool (as.any (fun x => bs.contains x))) :=
+  setIntersects_setOf as bs ty has hbs
 
 /-- `factory::set_is_empty` on the canonical set folds to emptiness of the element list -/
 theorem set_is_empty_folds (ts : List Term) (ty : TermType) : setIsEmpty (setOf ts ty) = .prim (.bool ts.isEmpty) :=
@@ -858,6 +876,10 @@ example : pOvf.outcome exReq exEs = .err := by decide +kernel
 
 /-! ### third fragment: sets -/
 
+example : setSubset (setOf [.prim (.bitvec 2), .prim (.bitvec 2)] .bitvec64) (setOf [.prim (.bitvec 1), .prim (.bitvec 2)] .bitvec64) = tTrue := by
+  decide +kernel
+example : setIntersects (setOf [.prim (.bitvec 3)] .bitvec64) (setOf [.prim (.bitvec 1), .prim (.bitvec 2)] .bitvec64) = tFalse := by
+  decide +kernel
 example : setMember (.prim (.bitvec 2)) (setOf [.prim (.bitvec 1), .prim (.bitvec 2), .prim (.bitvec 2)] .bitvec64) = tTrue := by
   decide +kernel
 
